@@ -51,13 +51,22 @@ TResults ==
     /\ nplaced' = nplaced + Len(Ev.eff)
     /\ UNCHANGED <<cfg, ntr>>
 
+\* ---- Sched (hook H1): relaxation is judged at every step that carries the effective pod, placed or not
+TSched ==
+    /\ Ev.e = "Sched"
+    /\ viol' = viol \o (IF Ev.eff = <<>> \/ Ev.kind \notin {"relax", "commit", "open"} THEN <<>>
+                        ELSE LET e == Ev.eff[1] IN
+                             IF ~KnownPod(cfg, PKey(e)) THEN <<V("G_C01_Relax", "unknown-pod")>>
+                             ELSE LET p == PodByKey(cfg, PKey(e)) IN Chk(G_C01_Relax(p, e), "G_C01_Relax", SigRelax(p, e)))
+    /\ UNCHANGED <<cfg, ntr, nplaced>>
+
 \* events this trace spec consumes without judging (other properties' trace specs use them)
-Passive == {"Hydrate", "Sched", "Api", "Read", "Prov", "Tick", "Created", "CreateErr", "Panic", "End", "Env"}
+Passive == {"Hydrate", "Api", "Read", "Prov", "Tick", "Created", "CreateErr", "Panic", "End", "Env"}
 TPassive == Ev.e \in Passive /\ UNCHANGED <<cfg, viol, ntr, nplaced>>
 
 TraceNext ==
     \/ /\ l <= Len(Trace) /\ l' = l + 1 /\ UNCHANGED done
-       /\ (TCfg \/ TResults \/ TPassive)
+       /\ (TCfg \/ TResults \/ TSched \/ TPassive)
     \/ /\ l = Len(Trace) + 1 /\ ~done /\ done' = TRUE
        /\ JsonSerialize(IOEnv.OUT, [viol |-> viol, consumed |-> l - 1, traces |-> ntr, placed |-> nplaced])
        /\ UNCHANGED <<l, cfg, viol, ntr, nplaced>>
